@@ -36,11 +36,13 @@ def check_c11(prop, tier, seed):
             orders3 = completion_orders(rep, scratch, 4, 3)
             orders = orders + [o for o in orders3 if o not in orders]
         s = seed
-        bases = [dict(kind='gauss', seed=81 + s, mseed=s, n_batch=4, n_live=20),
+        # smooth (un-quantised) likelihoods: a one-ulp difference in an argument must show in the digests
+        bases = [dict(kind='gauss', seed=81 + s, mseed=s, n_batch=4, n_live=20, smooth=True),
                  dict(kind='two', seed=82 + s, mseed=s, n_batch=4, n_live=20, n_networks=1, blob='multi',
                       prior='affine'),
                  dict(kind='wrap', seed=83 + s, mseed=s, n_batch=4, n_live=20, periodic=[0], blob='float',
-                      prior='Prior', runkw=dict(n_eff=50, discard_exploration=False, n_shell=8))]
+                      prior='Prior', smooth=True, runkw=dict(n_eff=50, discard_exploration=False, n_shell=8)),
+                 dict(kind='ring', seed=87 + s, mseed=s, n_batch=4, n_live=20, prior='PriorArr', smooth=True)]
         if tier == 'thorough':
             bases += [dict(kind='plateau', seed=84 + s, mseed=s, n_batch=4, n_live=20, blob='struct', n_networks=2),
                       dict(kind='ring', seed=85 + s, mseed=s, n_batch=4, n_live=24, prior='PriorArr'),
